@@ -1,5 +1,5 @@
 import Eru.Misc.ProofsChunks
-import Eru.Misc.ProofsSender
+import Eru.Misc.ProofsSender2
 /-
 C29 — File transfers deliver identical content and always finish.
 Chunking: Eru/Misc/Chunks.lean (rpc/transform.go:toSendLargeFileChunks);
@@ -74,6 +74,59 @@ particular a final state is reachable from every reachable state. -/
 theorem always_finishes (behs : List Beh) (chunks : List (List Byte)) (s : State)
     (hr : Reachable behs chunks s) : ∃ s', Reach behs s s' ∧ final s' = true :=
   finishes_from behs s.mu s (hr.inv (GInv.init behs chunks)) (Nat.le_refl _)
+
+
+/-- **Delivered content is identical; exactly one result per target.**  In every final state of
+every schedule, for every (deduplicated) target of a non-empty chunk list (an empty file still has
+one chunk): exactly one message was sent on the result channel, it carries an error iff the
+workload is missing or the engine failed, and the engine has received exactly the bytes its
+behaviour allows — the whole file, byte for byte, when it reads to the end (`limit = none`),
+the first `k` bytes when it stops after `k`, nothing when the workload is missing. -/
+theorem delivered_identical (behs : List Beh) (chunks : List (List Byte)) (hne : chunks ≠ [])
+    (s : State) (hr : Reachable behs chunks s) (hf : final s = true) (i : Nat) (hi : i < behs.length) :
+    ∃ t b, s.ts[i]? = some t ∧ behs[i]? = some b ∧
+      t.results = [expectedErr b] ∧ t.got = expectedGot b chunks.flatten := by
+  have hG := hr.inv (GInv.init behs chunks)
+  obtain ⟨hd, hcr⟩ := hr.data (GInv.init behs chunks) (DG.init behs chunks hne)
+  obtain ⟨hl, _, _, hc⟩ := hG
+  have hi' : i < s.ts.length := hl ▸ hi
+  have hti : s.ts[i]? = some s.ts[i] := List.getElem?_eq_getElem hi'
+  have hbi : behs[i]? = some behs[i] := List.getElem?_eq_getElem hi
+  refine ⟨s.ts[i], behs[i], hti, hbi, ?_⟩
+  simp only [final, Bool.and_eq_true, List.all_eq_true] at hf
+  obtain ⟨hcl, hall⟩ := hf
+  have hcreated : (s.ts[i]).created = true := by
+    rcases hcr i _ hti with h | ⟨ch, hm⟩
+    · exact h
+    · rw [hc hcl] at hm; cases hm
+  have hdone : (s.ts[i]).cop = .done := by
+    have := hall _ (List.getElem_mem hi')
+    simpa [hcreated] using this
+  have := (hd i _ _ hti hbi).2.2.2
+  rw [hdone] at this
+  exact this
+
+/-- in particular a target whose engine reads to the end receives the file unchanged, whatever
+the other targets do (missing, rejecting, aborting) -/
+theorem full_reader_gets_file (behs : List Beh) (chunks : List (List Byte)) (hne : chunks ≠ [])
+    (s : State) (hr : Reachable behs chunks s) (hf : final s = true) (i : Nat) (hi : i < behs.length)
+    (hb : behs[i]? = some ⟨false, none, false⟩) :
+    ∃ t, s.ts[i]? = some t ∧ t.results = [false] ∧ t.got = chunks.flatten := by
+  obtain ⟨t, b, h1, h2, h3, h4⟩ := delivered_identical behs chunks hne s hr hf i hi
+  rw [hb] at h2; injection h2 with h2; subst h2
+  exact ⟨t, h1, by simpa [expectedErr] using h3, by simpa [expectedGot] using h4⟩
+
+
+/-- end to end (chunking + pipeline): sending `content` in chunks of `size` delivers exactly
+`content` to every target whose engine reads to the end — for every size, including empty -/
+theorem send_delivers_file (behs : List Beh) (content : List Byte) (size : Nat) (hs : 0 < size)
+    (s : State) (hr : Reachable behs (toChunks size hs content) s) (hf : final s = true) (i : Nat)
+    (hi : i < behs.length) (hb : behs[i]? = some ⟨false, none, false⟩) :
+    ∃ t, s.ts[i]? = some t ∧ t.results = [false] ∧ t.got = content := by
+  have hne : toChunks size hs content ≠ [] := by
+    rw [toChunks]; split <;> simp
+  obtain ⟨t, h1, h2, h3⟩ := full_reader_gets_file behs _ hne s hr hf i hi hb
+  exact ⟨t, h1, h2, by rw [h3, toChunks_flatten]⟩
 
 /-- non-trivial instance: target 0 reads everything, target 1 is missing, target 2's engine
 rejects the copy at once; 14 chunks (more than the buffer of 10 plus the one in flight) -/
